@@ -132,7 +132,8 @@ theorem wf_sumSimplify (hm : LeafMono L) {e : Expr} {r : List Var} (he : Wf L R 
     split
     · simp [Wf]
     · split
-      · simp [Wf]
+      · simp only [Wf, true_and]
+        intro v hv; exact hr v (List.mem_filter.1 hv).1
       · split
         · simp only [Wf]; exact hm _ _ _ _ _ he (hsub _) (by simp)
         · simp only [Wf]
@@ -359,6 +360,32 @@ theorem wf_simplifyCast (hm : LeafMono L) {x e : Expr} (hx : Wf L R x) (h : simp
   · cases h
 
 mutual
+theorem wfList_flattenExprs : ∀ (es : List Expr), WfList L R es → WfList L R (flattenExprs es)
+  | [], _ => by simp [flattenExprs, WfList]
+  | e :: es, h => by
+    simp only [flattenExprs]
+    exact wfList_append (wfList_flattenExpr e h.1) (wfList_flattenExprs es h.2)
+theorem wfList_flattenExpr : ∀ (e : Expr), Wf L R e → WfList L R (flattenExpr e)
+  | .prod gs, h => by simp only [flattenExpr]; exact wfList_flattenExprs gs h
+  | .prob _ _ _, h => by simp only [flattenExpr]; exact ⟨h, trivial⟩
+  | .sum _ _, h => by simp only [flattenExpr]; exact ⟨h, trivial⟩
+  | .frac _ _, h => by simp only [flattenExpr]; exact ⟨h, trivial⟩
+  | .one, h => by simp only [flattenExpr]; exact ⟨h, trivial⟩
+  | .zero, h => by simp only [flattenExpr]; exact ⟨h, trivial⟩
+  | .q _ _, h => by simp only [flattenExpr]; exact ⟨h, trivial⟩
+end
+
+theorem wf_postFrac {e : Expr} (h : Wf L R e) : Wf L R (postFrac e) := by
+  unfold postFrac
+  split
+  · split
+    · exact h.1
+    · split
+      · trivial
+      · exact h
+  · exact h
+
+mutual
 /-- `canonicalize` keeps the vocabulary -/
 theorem wf_canon (hm : LeafMono L) : ∀ (x : Expr) (e : Expr), Wf L R x → canon x = .ok e → Wf L R e
   | .prob pop c p, e, hx, h => by
@@ -368,7 +395,7 @@ theorem wf_canon (hm : LeafMono L) : ∀ (x : Expr) (e : Expr), Wf L R x → can
     simp only [canon, bind, Except.bind] at h
     split at h
     · cases h
-    · rename_i es hes; cases h; exact wf_productSafe (wf_canonFlat hm fs es hx hes)
+    · rename_i es hes; cases h; exact wf_productSafe (wfList_flattenExprs es (wf_canonFlat hm fs es hx hes))
   | .sum x r, e, hx, h => by
     simp only [canon, bind, Except.bind] at h
     split at h
@@ -388,7 +415,11 @@ theorem wf_canon (hm : LeafMono L) : ∀ (x : Expr) (e : Expr), Wf L R x → can
           subst he; exact wf_canon hm n n' hx.1 hn'
         · split at h
           · cases h; trivial
-          · exact wf_truediv (wf_canon hm n n' hx.1 hn') (wf_canon hm d d' hx.2 hd') h
+          · split at h
+            · cases h
+            · rename_i rv hrv
+              cases h
+              exact wf_postFrac (wf_truediv (wf_canon hm n n' hx.1 hn') (wf_canon hm d d' hx.2 hd') hrv)
   | .one, e, _, h => by simp [canon] at h; cases h; trivial
   | .zero, e, _, h => by simp [canon] at h; cases h; trivial
   | .q _ _, e, _, h => by simp [canon] at h
